@@ -248,6 +248,22 @@ func rewriteFile(rel string, src []byte) ([]byte, counts, bool, error) {
 		})
 	}
 
+	// 1d. core.Run creates the listening socket itself; under the harness the listener is the simulated one:
+	// initListener(network, addr, options) -> verifInitListener(network, addr, options) (harness file of package core)
+	if rel == "core/gnet.go" {
+		ast.Inspect(f, func(n ast.Node) bool {
+			ce, ok := n.(*ast.CallExpr)
+			if !ok {
+				return true
+			}
+			if id, ok := ce.Fun.(*ast.Ident); ok && id.Name == "initListener" {
+				c["run-listener"]++
+				id.Name = "verifInitListener"
+			}
+			return true
+		})
+	}
+
 	// 1. selectors
 	ast.Inspect(f, func(n ast.Node) bool {
 		se, ok := n.(*ast.SelectorExpr)
@@ -329,6 +345,16 @@ func rewriteFile(rel string, src []byte) ([]byte, counts, bool, error) {
 			walkFuncLits(st.Call)
 			return st
 		case *ast.DeferStmt:
+			if rel == "core/gnet.go" {
+				if se, ok := st.Call.Fun.(*ast.SelectorExpr); ok && se.Sel.Name == "close" {
+					// Run() ends in `defer ln.close()`; under the harness serve() returns at once and the listener stays open
+					c["defer-listener-close-skipped"]++
+					usesVsys = true
+					st.Call = &ast.CallExpr{Fun: &ast.SelectorExpr{X: ast.NewIdent(vsysName), Sel: ast.NewIdent("Skipped")},
+						Args: []ast.Expr{&ast.BasicLit{Kind: token.STRING, Value: strconv.Quote("listener.close")}}}
+					return st
+				}
+			}
 			if rel == "core/engine.go" {
 				if se, ok := st.Call.Fun.(*ast.SelectorExpr); ok && se.Sel.Name == "stop" {
 					// serve() ends in `defer eng.stop(e)`, which blocks until shutdown: under the harness serve() returns
